@@ -544,6 +544,10 @@ pub fn make_fixtures(rng: &mut Rng, count: usize, len: usize, path: &str) {
 fn drive(run: &mut Run, rng: &mut Rng, len: usize, out: &mut Out) {
     let top: i64 = if run.sc.max_amt() > 0 { run.sc.max_amt() as i64 } else { 1 << 28 };
     if !run.migrated {
+        if rng.chance(1, 2) {
+            // the upgrade comes some blocks later: grants of the old deployment may have expired by then
+            run.step(&json!({"act":"advance","by":"env","args":{"dh":rng.range(0,6),"dt":rng.range(0,40)}}), out);
+        }
         run.step(&json!({"act":"migrate","by":"creator","args":{}}), out);
     }
     let mut obs = run.observe();
